@@ -1,21 +1,26 @@
 #!/bin/bash
 # run_seeds.sh: apply every seeded change under /verif/seeded in turn, run the quick check of the property it
 # breaks, revert, and print one line per seed.  /repo must be clean.  Writes seeded/RESULTS.md.
+# Seeds marked "slow" in their meta.json (a hang that the watchdog has to wait out: ~19 min) are skipped unless SLOW=1.
 cd /verif || exit 2
 out=seeded/RESULTS.md
-echo "| seeded change | property | quick check exit | first oracle reported |" > $out
-echo "|---|---|---|---|" >> $out
+echo "| seeded change | property | quick check exit | first oracle reported | wall |" > $out
+echo "|---|---|---|---|---|" >> $out
 for d in seeded/*/; do
   n=$(basename $d)
-  prop=$(python3 -c "import json;print(json.load(open('$d/meta.json'))['property'])")
+  prop=$(python3 -c "import json;print(json.load(open('$d/meta.json'))['detected_by']['check'].split()[0])")
+  slow=$(python3 -c "import json;print(json.load(open('$d/meta.json')).get('slow',False))")
+  if [ "$slow" = "True" ] && [ -z "${SLOW:-}" ]; then echo "$n $prop skipped (slow)"; echo "| $n | $prop | skipped (slow, see meta.json) | - | - |" >> $out; continue; fi
   if ! git -C /repo diff --quiet; then echo "/repo dirty" >&2; exit 2; fi
   git -C /repo apply "/verif/$d/patch.diff" || { echo "$n: patch does not apply" >&2; continue; }
   extra=$(python3 -c "import json;print(json.load(open('$d/meta.json')).get('extra_args',''))")
-  res=$(./check $prop quick --no-evidence $extra 2>&1); rc=$?
+  s=$(date +%s)
+  res=$(timeout 1800 ./check $prop quick --no-evidence $extra 2>&1); rc=$?
   git -C /repo checkout -- .
   oracle=$(echo "$res" | grep -m1 -o "oracle=[a-zA-Z_:0-9]*" | cut -d= -f2)
-  echo "$n $prop exit=$rc ${oracle:-none}"
-  echo "| $n | $prop | $rc | ${oracle:-none} |" >> $out
+  w=$(( $(date +%s)-s ))
+  echo "$n $prop exit=$rc ${oracle:-none} ${w}s"
+  echo "| $n | $prop | $rc | ${oracle:-none} | ${w}s |" >> $out
 done
 find replays -name '*.json' -delete
 ./check setup >/dev/null
